@@ -533,6 +533,15 @@ class ClientSSM(SSM):
                 self.set_state(COMPLETED)
                 self.response(apdu)
 
+            elif apdu.apduSeq != 0:
+                # only the first segment can open the response: anything
+                # else is a stale or overtaken frame, accepting it would
+                # start the buffer in the middle of the message
+                if _debug: ClientSSM._debug("    - not the first segment: %r", apdu.apduSeq)
+                abort = self.abort(AbortReason.invalidApduInThisState)
+                self.request(abort)     # send it to the device
+                self.response(abort)    # send it to the application
+
             else:
                 # set the segmented response context
                 self.set_segmentation_context(apdu)
